@@ -1,4 +1,5 @@
 import QuantemModel.Lemmas.VectorLaws
+import QuantemModel.Lemmas.VectorView
 /-!
 C11 — the ragged `Vector` (Model/Vector.lean: a state machine over a heap of arrays, cells hold
 references) keeps its structural invariants under any operation history.  Only property theorems
@@ -607,6 +608,127 @@ theorem shape_setter_counterexample :
   have := hv.ncells
   simp [prod] at this
 
+/-! ## 8. Objects the caller keeps across later operations (growth round 5)
+
+A flattened field handed out earlier, and a `_FieldView` made earlier, used again after ANY further
+history — including operations that raise part-way. -/
+
+/-- **shapes and dtype kinds are stable**: no operation, successful or raising, changes the number of
+rows, the number of columns or the dtype kind of an array that already exists, and no array ever
+disappears (arrays are written in place or newly allocated) -/
+theorem shapes_stable_step {s : State} (hI : Inv s) (op : Op) :
+    ∀ (r : Ref) (a : Arr), s.heap[r]? = some a → ∃ a' : Arr, (step s op).1.heap[r]? = some a' ∧
+      a'.ncols = a.ncols ∧ a'.nrows = a.nrows ∧ a'.isInt = a.isInt := heapExt_step hI op
+
+theorem shapes_stable_all_histories {s : State} (hI : Inv s) (ops : List Op) :
+    ∀ (r : Ref) (a : Arr), s.heap[r]? = some a → ∃ a' : Arr, (run s ops).heap[r]? = some a' ∧
+      a'.ncols = a.ncols ∧ a'.nrows = a.nrows ∧ a'.isInt = a.isInt := heapExt_run hI ops
+
+/-- **writing a flattened field back restores the data, after any history**: take `xs = v[f].flatten()`
+on a reachable state, run ANY operation list (field arithmetic, `set_flattened`, assignments to other
+vectors, copies, failing calls, …) that leaves the vector's own cell bindings and schema as they were
+(`hv'`: only array CONTENTS may have changed), then `v[f].set_flattened(xs)` succeeds and the field
+reads `xs` again — exactly, for int64 and float64 cells alike (no cast can bite: the values came out
+of cells of the same dtype kinds).  Needs no aliasing inside `v` (`hnd`), as `flatten_after_setFlattened`. -/
+theorem restore_after_history {s : State} (hI : Inv s) {vid : Nat} {v : Vec} {name : String} (ops : List Op)
+    (hv : s.getVec vid = .ok v) (hn : name ∈ v.fields) (hnd : (refsOf v.cells).Nodup)
+    (hv' : (run s ops).getVec vid = .ok v) :
+    (opSetFlattened (run s ops) vid name (.oneD (flattenField s.heap v.cells (v.fields.idxOf name)))).2 = .none ∧
+    flattenField (opSetFlattened (run s ops) vid name
+        (.oneD (flattenField s.heap v.cells (v.fields.idxOf name)))).1.heap v.cells (v.fields.idxOf name) =
+      flattenField s.heap v.cells (v.fields.idxOf name) := by
+  have hvok := hI.vecs v (getVec_mem hv)
+  have hI' := inv_run_from hI ops
+  have hext := heapExt_run hI ops
+  have hl := (flattenField_length_ext hext (v.fields.idxOf name) v.fields.length v.cells hvok.cells).symm
+  obtain ⟨h1, h2, _⟩ := flatten_after_setFlattened hI' hv' hn hnd hl
+  exact ⟨h1, by rw [h2]; exact castFlat_restore hext hI.wf _ _ v.cells hvok.cells⟩
+
+/-- **the structural invariant with held objects**: histories in which the caller also keeps field
+views and flattened arrays, uses the views later, changes the kept arrays in place and writes them
+back, preserve the invariant of section 1 (and array shapes / dtype kinds) -/
+theorem invariant_all_histories_held (ops : List VOp) : Inv (vrun vinit ops).s :=
+  (vrun_ok (st := vinit) inv_init ops).1
+
+/-- **a held field view follows its field NAME**: made at any time, used after any further history
+(`remove_fields` of earlier fields, `add_fields`, assignments, failing calls …), its `flatten()` is the
+column that the name has NOW in the vector's field list — the row-major concatenation over the cells
+the vector has now. -/
+theorem held_view_reads_named_column {st : VState} (ops : List VOp) {k : Nat} {fv : FView} {v : Vec}
+    (hk : st.views[k]? = some fv)
+    (hv : (vrun st ops).s.getVec fv.vid = .ok v) (hn : fv.name ∈ v.fields) :
+    ∃ t, (vstep (vrun st ops) (.viewFlatten k)).2 =
+      .res (.np (.arr1 (flattenField (vrun st ops).s.heap v.cells (v.fields.idxOf fv.name)) t)) := by
+  have hk' := vrun_views ops hk
+  have hj : fieldIndex v fv.name = .ok (v.fields.idxOf fv.name) := by simp [fieldIndex, hn]
+  refine ⟨flattenIsInt (vrun st ops).s.heap v.cells, ?_⟩
+  simp [vstep, hk', viewFlat, hv, hj]
+
+/-- **a kept flattened array belongs to the caller**: no operation on any vector or view changes it
+(only the caller's own in-place edit of that very array does), and the caller's edit changes nothing
+in the vectors. -/
+theorem kept_independent {st : VState} (op : VOp) {i : Nat} (hi : i < st.kept.length) :
+    ((∀ f, op ≠ .keptMap i f) → (vstep st op).1.kept[i]? = st.kept[i]?) ∧
+    (∀ f, (vstep st (.keptMap i f)).1.s = st.s) := by
+  refine ⟨vstep_kept op hi, ?_⟩
+  intro f
+  simp only [vstep]
+  split <;> rfl
+
+/-- **kept, changed elsewhere, restored**: `F = fv.flatten()`; any later history with held objects that
+does not re-bind the vector's cells or change its schema and in which the caller does not edit `F`;
+then `fv.set_flattened(F)` succeeds and the view reads `F` again. -/
+theorem kept_restore {st : VState} (hI : Inv st.s) {k : Nat} {fv : FView} {v : Vec} (ops : List VOp)
+    (hk : st.views[k]? = some fv) (hv : st.s.getVec fv.vid = .ok v) (hn : fv.name ∈ v.fields)
+    (hnd : (refsOf v.cells).Nodup)
+    (hops : ∀ op ∈ ops, ∀ f, op ≠ .keptMap st.kept.length f)
+    (hv' : (vrun (vstep st (.viewFlatten k)).1 ops).s.getVec fv.vid = .ok v) :
+    let st1 := vrun (vstep st (.viewFlatten k)).1 ops
+    let xs := flattenField st.s.heap v.cells (v.fields.idxOf fv.name)
+    (vstep st1 (.viewRestore k st.kept.length)).2 = .res .none ∧
+    flattenField (vstep st1 (.viewRestore k st.kept.length)).1.s.heap v.cells (v.fields.idxOf fv.name) = xs := by
+  intro st1 xs
+  have hvok := hI.vecs v (getVec_mem hv)
+  have hj : fieldIndex v fv.name = .ok (v.fields.idxOf fv.name) := by simp [fieldIndex, hn]
+  -- the state right after `F = fv.flatten()`
+  have e0 : (vstep st (.viewFlatten k)).1 =
+      { st with kept := st.kept ++ [(xs, flattenIsInt st.s.heap v.cells)] } := by
+    simp [vstep, hk, viewFlat, hv, hj, xs]
+  have hs0 : (vstep st (.viewFlatten k)).1.s = st.s := by rw [e0]
+  have hkept0 : (vstep st (.viewFlatten k)).1.kept[st.kept.length]? = some (xs, flattenIsInt st.s.heap v.cells) := by
+    rw [e0]; simp
+  have hlen0 : st.kept.length < (vstep st (.viewFlatten k)).1.kept.length := by rw [e0]; simp
+  have hviews0 : (vstep st (.viewFlatten k)).1.views[k]? = some fv := vstep_views _ hk
+  have hok := vrun_ok (st := (vstep st (.viewFlatten k)).1) (by rw [hs0]; exact hI) ops
+  have hext : HeapExt st.s.heap st1.s.heap := by have := hok.2; rw [hs0] at this; exact this
+  have hkept1 : st1.kept[st.kept.length]? = some (xs, flattenIsInt st.s.heap v.cells) := by
+    rw [← hkept0]; exact vrun_kept ops hlen0 hops
+  have hviews1 : st1.views[k]? = some fv := vrun_views ops hviews0
+  have hl := (flattenField_length_ext hext (v.fields.idxOf fv.name) v.fields.length v.cells hvok.cells).symm
+  have hvst1 : st1.s.getVec fv.vid = .ok v := hv'
+  have hset : viewSetFlat st1.s fv (.oneD xs) = opSetFlattened st1.s fv.vid fv.name (.oneD xs) := by
+    simp [viewSetFlat, opSetFlattened, hvst1, hj]
+  obtain ⟨h1, h2, _⟩ := flatten_after_setFlattened hok.1 hvst1 hn hnd hl
+  have hres : vstep st1 (.viewRestore k st.kept.length) =
+      ({ st1 with s := (opSetFlattened st1.s fv.vid fv.name (.oneD xs)).1 },
+        .res (opSetFlattened st1.s fv.vid fv.name (.oneD xs)).2) := by
+    simp only [vstep, hviews1, hkept1, hset]
+  rw [hres]
+  refine ⟨congrArg VRes.res h1, ?_⟩
+  show flattenField (opSetFlattened st1.s fv.vid fv.name (.oneD xs)).1.heap v.cells _ = xs
+  rw [h2]
+  exact castFlat_restore hext hI.wf _ _ v.cells hvok.cells
+
+/-- the code BEFORE the repair captured the column index when the view was made: the literal
+history `v = from_data([[1, 2, 3]], fields = x y z); fv = v["y"]; v.remove_fields("x")` makes the old
+view read `z`'s column (3) where the field it names holds 2.  (Replayed on the real class by the
+harness: the `held-view-flatten` predicate; repaired in /repo by fbb3a1b.) -/
+theorem stale_view_counterexample :
+    staleFlat (run init [.alloc 3 [[1, 2, 3]] false, .fromData [.val (.ref 0)] none (some ["x", "y", "z"]) none,
+      .removeFields 0 ["x"]]) ⟨0, "y", 1⟩ = [3] ∧
+    viewFlat (run init [.alloc 3 [[1, 2, 3]] false, .fromData [.val (.ref 0)] none (some ["x", "y", "z"]) none,
+      .removeFields 0 ["x"]]) ⟨0, "y"⟩ = .ok ([2], false) := ⟨rfl, rfl⟩
+
 /-! ## Non-vacuity -/
 
 /-- the invariant is not vacuous: a world with an aliased array and a 3-D vector satisfies it
@@ -659,6 +781,26 @@ example : (opSetItem (run init [.alloc 1 [[5]] false, .fromShape [] (some 1) non
 
 /-- `add_fields_values` / `remove_fields_values`: hypotheses satisfiable on the demo vector -/
 example : ∃ n ∈ ["y", "zz"], n ∈ ["x", "y"] := ⟨"y", by decide, by decide⟩
+
+/-- `restore_after_history`: the hypotheses are satisfiable with a history that really changes the field
+(and with one that raises): the vector's entry is unchanged, the column is not -/
+example : (run (run init demoOps) [.fieldOp 0 "x" (fun _ => 7), .addFields 0 ["x"]]).getVec 0
+    = .ok (Vec.mk [2] [some 0, none] ["x", "y"] ["none", "none"] 0) := rfl
+example : flattenField (run (run init demoOps) [.fieldOp 0 "x" (fun _ => 7)]).heap [some 0, none] 0 = [7, 7] ∧
+    flattenField (run init demoOps).heap [some 0, none] 0 = [1, 3] := ⟨rfl, rfl⟩
+
+/-- `held_view_reads_named_column` / `kept_restore` / `kept_independent`: a history with a held view of
+"y", a kept flatten, a later `remove_fields("x")` (the column of "y" moves from 1 to 0) and a later edit -/
+def demoVOps : List VOp :=
+  demoOps.map .base ++ [.mkView 0 "y", .viewFlatten 0, .base (.removeFields 0 ["x"])]
+example : (vrun vinit demoVOps).views[0]? = some ⟨0, "y"⟩ := rfl
+example : (vrun vinit demoVOps).kept = [([2, 4], false)] := rfl
+example : (vrun vinit demoVOps).s.getVec 0 = .ok (Vec.mk [2] [some 1, none] ["y"] ["none"] 0) := rfl
+example : (vstep (vrun vinit demoVOps) (.viewFlatten 0)).2 = .res (.np (.arr1 [2, 4] false)) := rfl
+example : ∀ op ∈ [VOp.viewOp 0 (· + ·) false (.scalar 5)], ∀ f, op ≠ .keptMap 0 f := by
+  intro op hop f; simp at hop; subst hop; intro h; cases h
+/-- a view whose field is gone raises KeyError only if a populated cell is visited -/
+example : (vstep (vrun vinit (demoVOps ++ [.base (.removeFields 0 ["y"])])) (.viewFlatten 0)).2 = .res (.err .keyError) := rfl
 
 /-- `Addr` instances exist for 1, 2 and 3 fixed dimensions, with slices expanded to index lists,
 negative indices wrapping, and repeated list entries. -/
